@@ -26,6 +26,7 @@ type Specs struct {
 	DefaultOpaque map[string][]string // package name -> default props: functions without a block are opaque contracts
 	Symbols       map[string]map[string]string // package -> grammar symbol -> invariant over v (a yySymType)
 	invFieldCache map[string]map[string]bool
+	NeedVariants  map[string][]string // package -> props: loops need variants
 	Every         map[string]*FuncSpec // "pkg.(*T).*" -> clauses merged into every method's contract
 	everyMerged   map[*FuncSpec]bool
 }
@@ -70,6 +71,7 @@ type rawClause struct {
 }
 
 type Clause struct {
+	Guard *Clause // decreases ... if COND
 	Text  string
 	Expr  *SExpr
 	Props []string
@@ -81,6 +83,7 @@ type Clause struct {
 
 type LoopSpec struct {
 	Header     string
+	Unbounded  string // reason why no variant is claimed
 	Invariants []*Clause
 	Decreases  []*Clause
 	Used       bool
@@ -249,6 +252,17 @@ func (S *Specs) parseFile(file, text string) {
 			S.PanicClasses[n] = &Clause{Text: ex, Expr: e, Line: lineNo}
 		case "default":
 			cur = nil
+			if rest == "variants" {
+				// every loop of the package that is not a range loop needs a variant
+				if S.NeedVariants == nil {
+					S.NeedVariants = map[string][]string{}
+				}
+				S.NeedVariants[pkg] = defProps
+				if defProps == nil {
+					S.NeedVariants[pkg] = []string{}
+				}
+				continue
+			}
 			if rest == "opaque" {
 				S.DefaultOpaque[pkg] = defProps
 				if defProps == nil {
@@ -431,10 +445,27 @@ func (S *Specs) parseClause(file string, line int, cur *FuncSpec, word, rest str
 			ls = &LoopSpec{Header: hdr, Line: line}
 			cur.Loops = append(cur.Loops, ls)
 		}
+		var guard *Clause
+		if kind == "decreases" {
+			// decreases EXPR if COND: the variant is required on iterations that start with COND
+			if k := strings.LastIndex(ex, " if "); k > 0 {
+				guard = mk(strings.TrimSpace(ex[k+4:]))
+				ex = strings.TrimSpace(ex[:k])
+				if guard == nil {
+					return
+				}
+			}
+		}
+		if kind == "unbounded" {
+			// loop "hdr" unbounded <reason>: no variant is claimed for this loop
+			ls.Unbounded = strings.TrimSpace(ex)
+			return
+		}
 		c := mk(ex)
 		if c == nil {
 			return
 		}
+		c.Guard = guard
 		switch kind {
 		case "invariant":
 			ls.Invariants = append(ls.Invariants, c)
@@ -475,6 +506,13 @@ func (S *Specs) parseClause(file string, line int, cur *FuncSpec, word, rest str
 			props = cur.Props
 		}
 		cur.Frames = append(cur.Frames, &Clause{Text: r, Props: props, Name: r, Line: line})
+	case "callsonly":
+		// callsonly[P] <callee name globs>: every call in the function is to one of these
+		props, r := takeProps(rest)
+		if props == nil {
+			props = cur.Props
+		}
+		cur.Frames = append(cur.Frames, &Clause{Text: "callsonly " + r, Props: props, Name: "callsonly " + r, Line: line})
 	case "calledby":
 		// calledby[P] <function key globs>: a static call-graph clause
 		props, r := takeProps(rest)
